@@ -1,2 +1,56 @@
-(* C09 — statements (under construction) *)
+(* C09 — arbitrary peer bytes never panic or hang the protocol layer.  Statements only.
+   In the model every place where the Rust code can panic (slice indexing / split_off past the
+   valid length) is an explicit Panic outcome and every loop runs on explicit fuel; "no panic, no
+   hang" is the theorem that neither Panic nor OutOfFuel is ever produced. *)
 From MPD Require Import Bytes Tables ParserModel BuilderModel ConnModel ParserProofs ConnProofs.
+Open Scope N_scope.
+
+(* every outcome of every receive call — including [extra] calls made after an error — for
+   arbitrary chunks, both policies, any capacity >= 1 *)
+Theorem c09_no_panic_no_hang : forall fuel extra c r o,
+  wf_reader r -> pol_ok (c_policy c) (length (c_buf c)) -> In o (run fuel extra c r) -> o <> Panic /\ o <> OutOfFuel.
+Proof. exact run_extra_good. Qed.
+
+(* a single receive performs at most (bytes left in the reader + 1) reads: that fuel is never exhausted *)
+Theorem c09_receive_terminates : forall c r,
+  wf_reader r -> pol_ok (c_policy c) (length (c_buf c)) ->
+  match receive c r with (o, _, _) => o <> Panic /\ o <> OutOfFuel end.
+Proof. exact receive_outcome_good. Qed.
+
+(* connect: its outcome is one of connected / invalid / eof / io (never Panic, never out of fuel) *)
+Theorem c09_connect_total : forall p r,
+  wf_reader r -> pol_ok p 0 ->
+  let '(o, r') := connect p r in
+  conn_matches o r' (ref_connect (concat (chunks r)) (rtail r)) (rtail r).
+Proof. exact connect_ref. Qed.
+
+(* every component consumes between 1 and all of the buffered bytes, so the builder loop cannot spin
+   and `msg.len() - (data_length + 1)` cannot underflow *)
+Theorem c09_component_consumes : forall a n c,
+  parse_component a = ROk n c -> (1 <= n <= length a)%nat /\ forall x, parse_component (a ++ x) = ROk n c.
+Proof. exact parse_ok_stable. Qed.
+
+(* an invalid verdict is final: more bytes never turn it into data *)
+Theorem c09_invalid_is_final : forall a,
+  parse_component a = RError \/ parse_component a = RFailure ->
+  forall x, parse_component (a ++ x) = RError \/ parse_component (a ++ x) = RFailure.
+Proof. exact parse_invalid_stable. Qed.
+
+(* the named edge cases, by computation on the model *)
+Example c09_edge_cases :
+  parse_component (b "ACK [18446744073709551616@0] {} x" ++ [LF]) = RError /\
+  parse_component (b "a: " ++ [255; LF]) = RError /\
+  parse_component (b "a: x" ++ [0] ++ b "y" ++ [LF]) = ROk 7 (CField (b "a") (b "x" ++ [0] ++ b "y")) /\
+  parse_component (b "binary: 18446744073709551615" ++ [LF] ++ b "abc") = RIncomplete /\
+  parse_component (b "binary: 18446744073709551616" ++ [LF]) =
+    ROk 29 (CField (b "binary") (b "18446744073709551616")) /\
+  parse_component (b "binary: 2" ++ [LF] ++ b "abX") = RFailure /\
+  parse_component (b "f o") = RError /\
+  parse_component (b "fo") = RIncomplete.
+Proof. repeat split; vm_compute; reflexivity. Qed.
+
+Print Assumptions c09_no_panic_no_hang.
+Print Assumptions c09_receive_terminates.
+Print Assumptions c09_connect_total.
+Print Assumptions c09_component_consumes.
+Print Assumptions c09_invalid_is_final.
